@@ -356,6 +356,8 @@ def execute(trace, rng):
     st["locks_created"] = shim.created
     for k, v in tr.fired.items():
         st["fault." + k] = v
+    # offered whenever the code waits for a lock with a timeout (the unchanged tree never does)
+    st["fault.timed_wait_expired"] = st.get("timed_wait_expired", 0)
     st["policy." + (trace.get("policy") or {}).get("kind", "replay")] = 1
     nontrivial = bool(st["preempt_lock_held"] or st["preempt_in_target"] or st["lock_contention"])
     h = hashlib.blake2b(json.dumps([spec, trace["ops"], sched], sort_keys=True).encode(), digest_size=8).hexdigest()
